@@ -1,12 +1,14 @@
 #!/bin/bash
 # usage: tools/gen_seeded.sh — runs all 20 checks against every seeded change (scratch copies), then rewrites
 # seeded/MATRIX.txt, each meta.json (caught_by, caught_by_rules) and seeded/README.md from that run.
+# MATRIX line:  <id> : <properties whose check printed a VIOLATION line> : <rules reported>
 run() {
   d=${1%/}; id=$(basename $d)
   out=$(/verif/tools/mut.sh $d/patch.diff all 2>&1)
+  props=$(echo "$out" | grep -o "^VIOLATION property=C[0-9]*" | sed 's/VIOLATION property=//' | sort -u | tr '\n' ',' | sed 's/,$//')
   rules=$(echo "$out" | grep -v 'note:' | grep -o "rule=[^ ]*" | sed 's/rule=//' | sort -u | tr '\n' ' ')
-  echo "$id : $rules"
+  echo "$id : $props : $rules"
 }
 export -f run
-ls -d /verif/seeded/*/ | xargs -P 6 -I{} bash -c "run {}" | sort > /verif/seeded/MATRIX.txt
+ls -d /verif/seeded/*/ | xargs -P ${PAR:-6} -I{} bash -c "run {}" | sort > /verif/seeded/MATRIX.txt
 python3 /verif/tools/gen_seeded_readme.py
